@@ -249,7 +249,9 @@ def judge(case, r):
     if r.get("honour", "1") != "1":
         out.append(("index-not-honoured", "index returned by vnacal_add_calibration is not the one find/get_* honour (ci=%s)"
                     % r.get("ci")))
-    if r.get("sfx") != "ok":
+    if r.get("sfx") != "ok" and e.get("sfx_free") and not failed:
+        pass        # an ACCEPTED standard with unknown / correlated parameters: the fixed list of standards need not determine them
+    elif r.get("sfx") != "ok":
         out.append(("unusable", "object not usable after the call: suffix %s %s" % (r.get("sfx"), r.get("smsg", ""))))
     elif r.get("sfxcb", "0") != "0":
         out.append(("suffix-callback", "valid calls after the failure invoked the error function %s time(s)" % r["sfxcb"]))
@@ -714,6 +716,257 @@ def new_cases_for_state(s, rng):
     return out
 
 
+# ----------------------------------------------------------------------------- parameter chains
+# S cells that name correlated parameters: _vnacal_new_check_parameter / _vnacal_new_get_parameter follow the chain of
+# correlates (vpmr_other); each parameter of the chain must be live (not deleted) and its own frequency range - the
+# range of the parameter at the end of its chain narrowed by its own sigma frequencies - must cover the calibration
+# range up to VNACAL_F_EXTRAPOLATION.  vnacal_new(3): "EINVAL invalid parameter"; a rejected standard adds nothing.
+from fractions import Fraction
+
+CAL_LO, CAL_HI = 1000, 3000         # MHz: the frequency vector the harness gives every vnacal_new_t (1, 2, 3 GHz)
+EXTRAPOLATION = Fraction(1, 100)    # VNACAL_F_EXTRAPOLATION; replaced by the value the translator reads (C11.py)
+INF = None
+# sigma / vector ranges (MHz) are taken from these lists: no value is closer than 5 MHz to a bound
+# (1 +- VNACAL_F_EXTRAPOLATION) * calibration end, so binary rounding of 1.01 * 1e9 cannot decide a comparison
+LO_OK, LO_BAD = (500, 1000, 1005), (1020, 1500, 2000)
+HI_OK, HI_BAD = (2980, 3000, 4000), (2100, 2500, 2960)
+
+
+class ParamTable(object):
+    """The parameters of the vnacal_t of a 'new' harness run: 0..2 predefined, 3 scalar, 4 vector 1..3 GHz,
+    5 unknown (other = 3), slot 6 free (a deleted scalar); further ones are created by the script, handles 6, 7, ..."""
+
+    def __init__(self):
+        self.p = {}
+        for h in (0, 1, 2, 3):
+            self.p[h] = {"kind": "s"}
+        self.p[4] = {"kind": "v", "range": (CAL_LO, CAL_HI)}
+        self.p[5] = {"kind": "u", "other": 3}
+        self.next = 6
+        self.script = []
+        self.deleted = set()
+
+    def _add(self, d, item):
+        h = self.next
+        self.next += 1
+        self.p[h] = d
+        self.script.append(item)
+        return h
+
+    def scalar(self):
+        return self._add({"kind": "s"}, "s")
+
+    def vector(self, lo, hi):
+        return self._add({"kind": "v", "range": (lo, hi)}, "v:%d:%d" % (lo, hi))
+
+    def unknown(self, other):
+        return self._add({"kind": "u", "other": other}, "u:%d" % other)
+
+    def correlated(self, other, sigma):
+        return self._add({"kind": "c", "other": other, "sigma": sigma},
+                         "c:%d:%s" % (other, "-" if sigma is None else "%d:%d" % sigma))
+
+    def delete(self, h):
+        self.deleted.add(h)
+
+    def full_script(self):
+        return ";".join(self.script + ["d:%d" % h for h in sorted(self.deleted)])
+
+    def created(self):
+        return list(range(6, self.next))
+
+    def held(self, h):
+        return any(k not in self.deleted or self.held(k) for k, d in self.p.items() if d.get("other") == h)
+
+    def end_range(self, h):
+        d = self.p[h]
+        while d["kind"] in ("u", "c"):
+            d = self.p[d["other"]]
+        return (0, INF) if d["kind"] == "s" else d["range"]
+
+    def frange(self, h):
+        a, b = self.end_range(h)
+        d = self.p[h]
+        if d["kind"] == "c" and d.get("sigma"):
+            a = max(a, d["sigma"][0])
+            b = d["sigma"][1] if b is INF else min(b, d["sigma"][1])
+        return a, b
+
+    def fits(self, h):
+        a, b = self.frange(h)
+        return not (a > (1 + EXTRAPOLATION) * CAL_LO or (b is not INF and b < (1 - EXTRAPOLATION) * CAL_HI))
+
+    def live(self, h):
+        return h in self.p and h not in self.deleted
+
+    def valid(self, h):
+        """The documented verdict: every parameter the cell refers to - directly or as a correlate - is live and covers
+        the calibration frequency range."""
+        if not self.live(h) or not self.fits(h):
+            return False
+        d = self.p[h]
+        return self.valid(d["other"]) if d["kind"] == "c" else True
+
+    def chain(self, h):
+        """The model's view of the cell (chain syntax of ocaml/drv_err.ml, frequencies in GHz)."""
+        def q(x):
+            return "inf" if x is INF else str(Fraction(x, 1000))
+        out = []
+        while True:
+            if h not in self.p or (h in self.deleted and not self.held(h)):
+                out.append("n:%d" % h)
+                break
+            d = self.p[h]
+            lv = 0 if h in self.deleted else 1
+            if d["kind"] == "c":
+                sg = d.get("sigma")
+                out.append("c:%d:%d:%s" % (h, lv, "-" if sg is None else "%s~%s" % (q(sg[0]), q(sg[1]))))
+                h = d["other"]
+                continue
+            a, b = self.end_range(h)
+            out.append("e:%d:%d:%d:%s:%s" % (h, lv, 1 if d["kind"] == "u" else 0, q(a), q(b)))
+            break
+        return ">".join(out)
+
+
+def registered_before(rows, cols, nstd):
+    """Handles in vn_parameter_hash after new_build(..., nstd) of the harness, in registration order."""
+    reg = [0]
+    if rows == 1 and cols == 1:
+        seq = [[2], [1], [0], [3]]
+    else:
+        seq = [[2, 1], [1, 2], [0], [0, 1], [2]]
+    for k in range(nstd):
+        for h in seq[k]:
+            if h not in reg:
+                reg.append(h)
+    return reg
+
+
+def gen_chain_cell(tb, rng, kind):
+    """-> (handle, label).  kind: 'ok' any valid cell, 'fresh' a valid cell that registers something new and unknown,
+    'bad' a cell that must be refused."""
+    def good_sigma():
+        return None if rng.random() < 0.4 else (rng.choice(LO_OK), rng.choice(HI_OK))
+
+    def good_end():
+        c = rng.choice(["scalar3", "vector4", "vector", "unknown", "newscalar"])
+        if c == "scalar3":
+            return 3
+        if c == "vector4":
+            return 4
+        if c == "vector":
+            return tb.vector(rng.choice(LO_OK), rng.choice(HI_OK))
+        if c == "unknown":
+            return tb.unknown(rng.choice([3, 4]))
+        return tb.scalar()
+
+    def good_chain(depth, end=None):
+        h = good_end() if end is None else end
+        for _ in range(depth):
+            h = tb.correlated(h, good_sigma())
+        return h
+
+    if kind == "fresh":
+        if rng.random() < 0.5:
+            return tb.unknown(rng.choice([3, 4])), "fresh unknown"
+        d = rng.randint(1, 3)
+        return good_chain(d), "correlated, depth %d" % d
+    if kind == "ok":
+        c = rng.choice(["pre", "pre", "base", "fresh"])
+        if c == "pre":
+            return rng.choice([0, 1, 2]), "predefined"
+        if c == "base":
+            return rng.choice([3, 4, 5]), "base parameter"
+        return gen_chain_cell(tb, rng, "fresh")
+    # bad cells
+    c = rng.choice(["narrow-correlate", "narrow-correlate", "deleted-correlate", "deleted-correlate", "narrow-vector",
+                    "unknown-of-narrow-vector", "narrow-end-of-chain", "deleted-handle", "handle-out-of-range"])
+    if c in ("narrow-correlate", "deleted-correlate"):
+        below = rng.randint(0, 2)          # correlated parameters below the bad one
+        above = rng.randint(0, 2)          # ... and above it: the cell's own parameter is `above` levels up
+        h = good_chain(below)
+        if c == "narrow-correlate":
+            sg = rng.choice([(rng.choice(LO_BAD), rng.choice(HI_OK)), (rng.choice(LO_OK), rng.choice(HI_BAD)),
+                             (rng.choice(LO_BAD), rng.choice(HI_BAD))])
+            a, b = tb.end_range(h)
+            if sg[0] > (b if b is not INF else 10 ** 9) or sg[1] < a or sg[0] >= sg[1]:
+                sg = (2000, 2500)           # vnacal_make_correlated_parameter wants an overlap with the end of the chain
+            bad = tb.correlated(h, sg)
+        else:
+            bad = tb.correlated(h, good_sigma())
+        top = bad
+        for _ in range(above):
+            top = tb.correlated(top, None if rng.random() < 0.6 else (rng.choice(LO_OK), rng.choice(HI_OK)))
+        if c == "deleted-correlate":
+            tb.delete(bad)
+        return top, "%s %d level(s) down" % (c, above)
+    if c == "narrow-vector":
+        return tb.vector(rng.choice(LO_BAD), rng.choice(HI_OK)), c
+    if c == "unknown-of-narrow-vector":
+        return tb.unknown(tb.vector(rng.choice(LO_OK), rng.choice(HI_BAD))), c
+    if c == "narrow-end-of-chain":
+        d = rng.randint(1, 2)
+        return good_chain(d, tb.vector(rng.choice(LO_BAD), rng.choice(HI_BAD))), "%s, depth %d" % (c, d)
+    if c == "deleted-handle":
+        h = tb.scalar()
+        tb.delete(h)
+        return h, c
+    return rng.choice([99, -1, -8, 1000]), c
+
+
+def chain_cases_for_state(s, rng, n=None):
+    """Rows of vnacal_new_add_mapped_matrix_m on a full S matrix whose cells are parameter chains."""
+    t, r, c = s["type"], s["rows"], s["cols"]
+    if r != c:
+        return []
+    ncells = r * c
+    out = []
+    for k in range(n if n is not None else (6 if ncells > 1 else 2)):
+        tb = ParamTable()
+        badpos = rng.randrange(ncells) if rng.random() < 0.75 else None
+        if badpos is not None and ncells > 1 and rng.random() < 0.6:
+            badpos = rng.randrange(1, ncells)        # something can have been registered before it
+        cells, labels = [], []
+        for i in range(ncells):
+            if i == badpos:
+                h, lab = gen_chain_cell(tb, rng, "bad")
+            elif badpos is not None and i < badpos and rng.random() < 0.7:
+                h, lab = gen_chain_cell(tb, rng, "fresh")
+            elif cells and rng.random() < 0.1:
+                h, lab = cells[rng.randrange(len(cells))], "repeated"
+            else:
+                h, lab = gen_chain_cell(tb, rng, "ok")
+            cells.append(h)
+            labels.append(lab)
+        valid = all(tb.valid(h) for h in cells)
+        assert valid == (badpos is None), (cells, tb.p, badpos)
+        v = [0, 0, 0, r, c, r, c, 4] + (list(range(1, r + 1)) + [0, 0, 0, 0])[:4] + [ncells] + (cells + [0] * 16)[:16] + [0]
+        text = tb.full_script() + "/" + ",".join(str(x) for x in v)
+        if badpos is None:
+            cls = "chains: all cells valid"
+            exp = dict(OK, sfx_free=True)
+        else:
+            fresh_before = any(l.startswith(("fresh", "correlated")) for l in labels[:badpos])
+            cls = "chains: %s in cell %d%s" % (labels[badpos].split(",")[0].split(" ")[0], badpos,
+                                                " after a fresh unknown" if fresh_before else "")
+            exp = fail("m1")
+        case = Case("new", s, "add_chains", cls, [], exp, text)
+        case.chain = {"cells": [tb.chain(h) for h in cells], "handles": tb.created(), "labels": labels,
+                      "registered": registered_before(r, c, s["nstd"])}
+        out.append(case)
+    return out
+
+
+def chain_model_line(case):
+    s = case.state
+    stored = 7 if s["type"] == E12 else s["type"]
+    return "nc %d %d %d %s 0 0 %d %s~%s %d %d %d %d %s %s" % (
+        stored, s["rows"], s["cols"], ",".join(str(h) for h in case.chain["registered"]), s["nstd"],
+        Fraction(CAL_LO, 1000), Fraction(CAL_HI, 1000), s["rows"], s["cols"], s["rows"], s["cols"],
+        ",".join(str(x) for x in range(1, s["rows"] + 1)), ";".join(case.chain["cells"]))
+
+
 # ----------------------------------------------------------------------------- vnaproperty family
 def prop_cases_for_state(s, rng):
     out = []
@@ -769,7 +1022,8 @@ def prop_cases_for_state(s, rng):
 GENERATORS = {
     "data": lambda s, rng: data_cases_for_state(s, rng) + reshape_cases(s, rng) + settings_cases(s, rng) + file_cases(s, rng)
     + null_cases(s),
-    "cal": cal_cases_for_state, "new": new_cases_for_state, "prop": prop_cases_for_state,
+    "cal": cal_cases_for_state, "new": lambda s, rng: new_cases_for_state(s, rng) + chain_cases_for_state(s, rng),
+    "prop": prop_cases_for_state,
 }
 
 
@@ -844,6 +1098,15 @@ def run_catalogue(ctx, runner):
             states = [{"variant": v} for v in rng.sample(range(8), nst[fam])]
         for st in states:
             cases += GENERATORS[fam](st, rng)
+    # the run "that never made the rejected call": every refused vnacal_new_add_* row gets a twin that builds the same
+    # objects from the same pseudo-random stream and skips the call; after the suffix (remaining standards, solve) the
+    # two vnacal_new_t must be the same - bookkeeping and solved error terms
+    twins = []
+    for c in list(cases):
+        if c.fam == "new" and c.func.startswith("add_") and c.exp.get("ret") is not None:
+            tw = Case("new", c.state, c.func + "@skip", c.cls, c.args, {"ret": None}, c.text)
+            twins.append((c, tw))
+            cases.append(tw)
     ctx.log("catalogue: %d rows" % len(cases))
     results = runner.run(cases)
     rows = set()
@@ -862,6 +1125,19 @@ def run_catalogue(ctx, runner):
             failures.setdefault((c.func.replace("@null", ""), c.cls, probs[0][0]), []).append((c, r, probs))
         elif len(ctx.samples) < 8 and nontrivial and ctx.rng.random() < 0.02:
             ctx.sample({"row": c.describe(), "observed": r["raw"][:300]})
+    ntw = 0
+    for c, tw in twins:
+        r, rt = results.get(c.id), results.get(tw.id)
+        if not r or not rt or "crash" in r or "crash" in rt or not has_failed(r):
+            continue
+        ntw += 1
+        if rt.get("sfx") == "ok" and (r.get("sfx") != "ok" or r.get("sd") != rt.get("sd")):
+            txt = ("after the refused call the calibration completed with the remaining standards is not the one of a run "
+                   "that never made the call: suffix %s %s, digest of the solved vnacal_new_t %s, without the call: suffix ok, %s"
+                   % (r.get("sfx"), r.get("smsg", ""), r.get("sd"), rt.get("sd")))
+            failures.setdefault((c.func, c.cls, "differs-from-run-without-the-call"), []).append(
+                (c, r, [("differs-from-run-without-the-call", txt)]))
+    ctx.extra["catalogue_twin_comparisons"] = ntw
     ctx.traces_validated += len(cases)
     ctx.extra["catalogue_rows"] = len(cases)
     ctx.extra["catalogue_distinct_function_class"] = len(rows)
@@ -892,6 +1168,467 @@ def run_catalogue(ctx, runner):
                                         "problems": [p[1] for p in probs],
                                         "other_classes_failing_the_same_way": [g[0] for g in groups[1:]][:20],
                                         "how": "harness/err_harness.c run <tmpdir> < one line (harness_line)"})
+
+
+# ----------------------------------------------------------------------------- allocation failures, then further use
+# "Every failing call ... leaves objects usable": the failure here is the k-th allocation request of the call
+# (harness/err_alloc_harness.c, linked with harness/allocwrap.c), for every allocation point of the vnadata family the
+# generated calls reach; after it the object is used on: the same call again, resize / init to sizes up to the failed
+# request with every frequency, cell and per-frequency z0 entry set and read back, saved to a memory stream, freed - all
+# under ASan, and compared with the run in which no request fails.  (That the call itself answers -1 / ENOMEM is
+# property C12's clause; it is judged here as well because C11 states the failure value / errno / one report for
+# every failing call.)
+class ACase(object):
+    def __init__(self, state, func, args, text, k, label):
+        self.state, self.func, self.args, self.text, self.k, self.label = state, func, list(args), text, k, label
+        self.id = None
+
+    def line(self):
+        s = self.state
+        a = (self.args + [0, 0, 0, 0])[:4]
+        return "afail %s %d %d %d %d %d %d %s %d %d %d %d %d %s" % (
+            self.id, s["type"], s["rows"], s["cols"], s["freqs"], s["fz0"], s["seed"], self.func, a[0], a[1], a[2], a[3],
+            self.k, hx(self.text))
+
+    def describe(self):
+        return {"family": "data", "function": self.func, "call": self.label, "state": self.state, "arguments": self.args,
+                "text": self.text, "failing_allocation_request": self.k, "harness_line": self.line(),
+                "how": "harness/err_alloc_harness.c (linked with harness/allocwrap.c) run <tmpdir> < harness_line"}
+
+
+def npd_text(ports, nf, per_frequency_z0=False):
+    L = ["#NPD", "#:version 1.0", "#:ports %d" % ports, "#:frequencies %d" % nf, "#:parameters Sri",
+         "#:z0" + (" PER-FREQUENCY" if per_frequency_z0 else " 50 +0j" * ports), "#:fprecision 7", "#:dprecision 6", "#"]
+    for f in range(nf):
+        row = ["%d.0e+06" % (f + 1)]
+        if per_frequency_z0:
+            row += ["%d %d" % (50 + f, p) for p in range(ports)]
+        row += ["%g %g" % (0.1 * (i % 7), -0.05 * (i % 3)) for i in range(ports * ports)]
+        L.append(" ".join(row))
+    return "\n".join(L) + "\n"
+
+
+def ts1_text(nf):
+    L = ["# MHz S RI R 50"]
+    for f in range(nf):
+        L.append("%d 0.1 0.2 0.3 0.4 0.5 0.6 0.7 0.8" % (f + 1))
+    return "\n".join(L) + "\n"
+
+
+def ts2_text(nf):
+    L = ["[Version] 2.0", "# MHz S RI R 50", "[Number of Ports] 1", "[Number of Frequencies] %d" % nf, "[Network Data]"]
+    for f in range(nf):
+        L.append("%d 0.%d 0.2" % (f + 1, f % 9 + 1))
+    L.append("[End]")
+    return "\n".join(L) + "\n"
+
+
+ALLOC_STATES = [(1, 2, 2, 4, 0), (1, 2, 2, 4, 1), (1, 3, 3, 2, 0), (0, 0, 0, 0, 0), (10, 1, 3, 3, 1), (2, 2, 2, 1, 0),
+                (0, 2, 3, 2, 1), (1, 1, 1, 0, 0)]
+
+
+def alloc_base_cases(ctx):
+    rng = ctx.rng
+    quick = ctx.tier == "quick"
+    out = []
+    for (t, r, c, f, z) in ALLOC_STATES:
+        s = {"type": t, "rows": r, "cols": c, "freqs": f, "fz0": z, "seed": rng.randint(1, 10 ** 6)}
+        P = max(r, c)
+        g = rng.randint(2, 7)
+        calls = [("resize", [t, r, c, f + g], "", "grow frequencies %d -> %d" % (f, f + g)),
+                 ("resize", [0, r + 1, c + 2, f], "", "grow the matrix"),
+                 ("resize", [0, r + 2, c + 1, f + rng.randint(1, 4)], "", "grow matrix and frequencies"),
+                 ("resize", [1, 4, 4, f + 2], "", "to S 4x4"),
+                 ("init", [1, 3, 3, f + rng.randint(1, 6)], "", "S 3x3, more frequencies"),
+                 ("init", [0, r, c + 1, f + 2], "", "one more column"),
+                 ("alloc_and_init", [1, 2, 2, rng.randint(1, 6)], "", "S 2x2"),
+                 ("alloc_and_init", [10, 1, 3, 4], "", "Zin 1x3"),
+                 ("add_frequency", [7], "", "valid"), ("get_format", [], "", "valid"), ("set_type", [0], "", "undefined")]
+        if f > 0 and P > 0:
+            calls += [("set_fz0", [rng.randrange(f), rng.randrange(P)], "", "valid"),
+                      ("set_fz0_vector", [rng.randrange(f)], "", "valid")]
+        if P > 0:
+            calls += [("set_z0", [rng.randrange(P)], "", "valid"), ("set_z0_vector", [], "", "valid")]
+        calls.append(("set_all_z0", [], "", "valid"))
+        if t == 1:
+            calls += [("set_format", [], "Sri,Zma,Sdb", "S and Z parameters"), ("set_format", [], "il,rl,vswr", "loss formats")]
+            if f >= 1:
+                calls += [("convert", [4, 0], "", "S -> Z in place"), ("convert", [4, 1], "", "S -> Z into another object"),
+                          ("fsave", [], "x.npd", "npd"), ("cksave", [], "x.npd", "npd")]
+        nf = rng.randint(5, 12) if quick else rng.randint(20, 70)
+        calls += [("fload", [], "x.npd\n" + npd_text(2, nf), "npd 2x2, %d frequencies" % nf),
+                  ("fload", [], "x.npd\n" + npd_text(1, nf // 2 + 1, True), "npd 1x1, per-frequency z0"),
+                  ("fload", [], "x.s2p\n" + ts1_text(nf), "touchstone 1, %d frequencies" % nf),
+                  ("fload", [], "x.ts\n" + ts2_text(nf // 2 + 1), "touchstone 2")]
+        for func, args, text, label in calls:
+            out.append((s, func, args, text, label))
+    return out
+
+
+def run_alloc_faults(ctx, exe, env):
+    rng = ctx.rng
+    quick = ctx.tier == "quick"
+    runner = Runner(ctx, exe, env)
+    base = [ACase(s, func, args, text, 0, label) for s, func, args, text, label in alloc_base_cases(ctx)]
+    res0 = runner.run(base)
+    cap = 16 if quick else 80
+    faulted = []
+    sampled = 0
+    for b in base:
+        r = res0.get(b.id, {})
+        b.res = r
+        if "crash" in r or "n" not in r:
+            continue
+        n = int(r["n"])
+        ks = list(range(1, n + 1))
+        if n > cap:
+            keep = set(ks[:8] + ks[-4:])
+            keep.update(rng.sample(ks[8:-4], cap - 12))
+            ks = sorted(keep)
+            sampled += 1
+        for k in ks:
+            fc = ACase(b.state, b.func, b.args, b.text, k, b.label)
+            fc.base = b
+            faulted.append(fc)
+    if sampled:
+        SKIPPED.append(("allocation-failure rows: %d calls make more than %d allocation requests" % (sampled, cap),
+                        "sampling: the first 8, the last 4 and %d random requests in between are failed; the thorough tier "
+                        "takes 80" % (cap - 12)))
+    ctx.log("allocation failures: %d calls, %d (call, failing request) rows" % (len(base), len(faulted)))
+    res = runner.run(faulted)
+    failures = {}
+
+    def add(case, key, text, r):
+        failures.setdefault((case.func, key), []).append((case, text, r))
+    sites = set()
+    for b in base:
+        r = b.res
+        ctx.count(None)
+        if "crash" in r:
+            add(b, "crash", "no allocation fails, yet the call or the use after it did not return: %s in %s"
+                % (r["crash"].get("error"), r["crash"].get("function")), r)
+        elif r.get("ret") in FAIL_RETS and not (r["ret"] == "null" and r["errno"] == "0" and r["cb"] == "0"):
+            add(b, "refused-valid", "valid call failed without any injected failure: ret=%s errno=%s msg=%s"
+                % (r["ret"], r["errno"], r.get("msg")), r)
+        elif r.get("u") != "ok":
+            add(b, "unusable", "valid use after a valid call failed: %s %s" % (r.get("u"), r.get("umsg")), r)
+    for fc in faulted:
+        r = res.get(fc.id)
+        b = fc.base.res
+        if r is None or "crash" in b or (b.get("ret") in FAIL_RETS and b.get("errno") != "0") or b.get("u") != "ok":
+            continue
+        if "crash" in r:
+            if str(r["crash"].get("error", "")).startswith("not run"):
+                continue
+            ctx.count(("afail", fc.func, fc.label, fc.k, tuple(sorted(fc.state.items()))))
+            add(fc, "crash", "allocation request %d of %s fails; the call or the further valid use of the object did not return: "
+                "%s in %s" % (fc.k, fc.base.res.get("n"), r["crash"].get("error"), r["crash"].get("function")), r)
+            continue
+        if r.get("inj") != "1":
+            ctx.count(None)
+            continue
+        failed = r["ret"] in FAIL_RETS and not (r["ret"] == "null" and r["errno"] == "0" and r["cb"] == "0")
+        ctx.count(("afail", fc.func, fc.label, fc.k, tuple(sorted(fc.state.items()))) if failed else None)
+        sites.add((fc.func, r.get("msg", "").split(":")[0]))
+        pre = "allocation request %d of %s fails: " % (fc.k, b.get("n"))
+        if failed:
+            if r["errno"] != "ENOMEM":
+                add(fc, "errno", pre + "errno %s on return, expected the errno of the failed request (ENOMEM)" % r["errno"], r)
+            if r["cb"] != "1" or r["cats"][-1:] != "0":
+                add(fc, "callbacks", pre + "error function called %s time(s) with categories %s, documented once with VNAERR_SYSTEM "
+                    "(message %s)" % (r["cb"], r["cats"], r.get("msg")), r)
+            elif r["ecb"] != r["errno"]:
+                add(fc, "errno-in-callback", pre + "errno inside the error function %s, on return %s" % (r["ecb"], r["errno"]), r)
+            if r["nl"] != "0":
+                add(fc, "multi-line", pre + "error message contains a newline", r)
+        elif r["cb"] != "0":
+            add(fc, "callback-on-success", pre + "the call reported success but invoked the error function %s time(s)" % r["cb"], r)
+        if r["rret"] in FAIL_RETS and b.get("ret") not in FAIL_RETS:
+            add(fc, "retry", pre + "the same call, repeated without any failing request, fails: %s errno=%s (%d reports)"
+                % (r["rret"], r["rerrno"], int(r["rcb"])), r)
+        elif failed and r["dr"] != b["d1"]:
+            add(fc, "retry-differs", pre + "after the failed call the repeated call succeeds but leaves an object (digest %s) that "
+                "differs from the one the call gives when no request fails (%s)" % (r["dr"], b["d1"]), r)
+        if r["u"] != "ok":
+            add(fc, "unusable", pre + "object not usable afterwards: step %s of resize / init / set / get / save fails (%s)"
+                % (r["u"], r.get("umsg")), r)
+        elif r["ucb"] != "0":
+            add(fc, "suffix-callback", pre + "valid calls afterwards invoked the error function %s time(s): %s" % (r["ucb"], r.get("umsg")), r)
+        elif failed and r["rret"] not in FAIL_RETS and r["du"] != b["du"]:
+            add(fc, "use-differs", pre + "what is read back / saved during the further use (digest %s) differs from the run "
+                "without a failing request (%s)" % (r["du"], b["du"]), r)
+    ctx.traces_validated += len(base) + len(faulted)
+    ctx.extra["alloc_failure_rows"] = {"calls": len(base), "call_x_failing_request": len(faulted),
+                                       "distinct_function_x_failing_libc_call": len(sites)}
+    known = vplib.load_known()
+    unknown = [k for k in sorted(failures)
+               if vplib.match_known(ctx.prop, {"kind": "alloc-failure", "function": k[0], "problem": k[1]}, known) is None
+               and k[1] != "crash"]
+    crashes = [k for k in sorted(failures) if k[1] == "crash"]
+    ctx.obligation("catalogue:usable-after-allocation-failure", not unknown and not crashes,
+                   "; ".join("%s: %s" % k for k in (unknown + crashes)[:5]))
+    for (func, key), lst in sorted(failures.items()):
+        case, text, r = min(lst, key=lambda x: (x[0].state["rows"] * x[0].state["cols"] * max(1, x[0].state["freqs"]), x[0].k))
+        sig = {"kind": "alloc-failure", "function": func, "problem": key}
+        if key == "crash":
+            sig = dict(r["crash"])
+            sig["api"] = func
+            sig["after"] = "allocation failure"
+        ctx.violation(sig, ("%s [%s] on %s: %s" % (func, case.label, case.state, text))[:500],
+                      {"row": case.describe(), "observed": r.get("raw", r.get("stderr", ""))[-2500:],
+                       "fault_free_run": case.base.res.get("raw") if hasattr(case, "base") else None,
+                       "rows_failing_the_same_way": len(lst),
+                       "failing_requests": sorted(set(x[0].k for x in lst))[:30]})
+
+
+# ----------------------------------------------------------------------------- histories
+# Theorems data_history_refusals_erasable / new_history_refusals_erasable (Properties_C11.v): the calls an argument check
+# refuses can be deleted from any history.  Tie: random histories of calls on ONE vnadata_t are run by the extracted
+# hrun / kept (driver line "dh") and by the library (harness line "dhist"): per call the answer and the summary after
+# it, then the library runs the history WITHOUT the refused calls: same digest at the end, same answers of the other
+# calls.  For the vnacal_new_t the pair (history, history without its EINVAL refusals) is run through the C API only
+# (harness line "nhist"): same bookkeeping, same solved error terms after the remaining standards have been added.
+class HCase(object):
+    def __init__(self, kind, state, ops):
+        self.kind, self.state, self.ops = kind, state, list(ops)
+        self.id = None
+
+    def optext(self):
+        return ";".join(":".join([f] + [str(x) for x in a]) for f, a in self.ops) or "-"
+
+    def line(self):
+        s = self.state
+        if self.kind == "dhist":
+            return "dhist %s %d %d %d %d %d %d %s" % (self.id, s["type"], s["rows"], s["cols"], s["freqs"], s["fz0"], s["seed"],
+                                                      self.optext())
+        return "nhist %s %d %d %d %d %d %s" % (self.id, s["type"], s["rows"], s["cols"], s["nstd"], s["seed"], self.optext())
+
+    def describe(self):
+        return {"family": "data" if self.kind == "dhist" else "new", "state": self.state,
+                "history": [":".join([f] + [str(x) for x in a]) for f, a in self.ops], "harness_line": self.line(),
+                "how": "harness/err_harness.c run <tmpdir> < harness_line"}
+
+
+def gen_data_history(rng, with_init):
+    shapes = [(t, r, c) for t in range(11) for r in range(4) for c in range(4) if vtype_ok(t, r, c)]
+    t, r, c = rng.choice(shapes)
+    f = rng.randint(0, 3)
+    z = rng.randint(0, 1) if f > 0 and max(r, c) > 0 else 0
+    s = {"type": t, "rows": r, "cols": c, "freqs": f, "fz0": z, "seed": rng.randint(1, 10 ** 6)}
+    funcs = [x for x in TIE_FUNCS if with_init or x != "init"]
+    reshapes = [(1, 2, 2, 2), (1, 3, 3, 1), (0, 2, 3, 2), (2, 2, 2, 1), (10, 1, 3, 2), (0, 0, 0, 0), (2, 3, 3, 1), (0, -1, 1, 1),
+                (11, 1, 1, 1), (1, 2, 3, 1), (4, 1, 1, 3), (0, 1, 1, -1), (6, 2, 2, 0)]
+    ops = []
+
+    def ri(a, b):
+        return rng.randint(a, b)
+    for _ in range(rng.randint(3, 12)):
+        fn = rng.choice(funcs)
+        if fn in ("resize", "init"):
+            a = list(rng.choice(reshapes))
+        elif fn == "set_type":
+            a = [rng.choice([-1, 0, 1, 2, 4, 10, 11])]
+        elif fn in ("get_frequency", "set_frequency", "get_matrix", "set_matrix", "get_fz0_vector", "set_fz0_vector"):
+            a = [ri(-1, 4)]
+        elif fn in ("get_cell", "set_cell"):
+            a = [ri(-1, 4), ri(-1, 3), ri(-1, 3)]
+        elif fn in ("get_to_vector", "set_from_vector"):
+            a = [ri(-1, 3), ri(-1, 3)]
+        elif fn in ("get_z0", "set_z0"):
+            a = [ri(-1, 3)]
+        elif fn in ("get_fz0", "set_fz0"):
+            a = [ri(-1, 4), ri(-1, 3)]
+        elif fn == "add_frequency":
+            a = [rng.choice([-1, 2, 5])]
+        elif fn == "set_filetype":
+            a = [rng.choice([-1, 0, 3, 4])]
+        elif fn in ("set_fprecision", "set_dprecision"):
+            a = [rng.choice([-1, 0, 1, 9])]
+        else:
+            a = []
+        ops.append((fn, a))
+    return HCase("dhist", s, ops)
+
+
+def parse_answers(r):
+    a = r.get("ans", "-")
+    return [] if a == "-" else [x.split("/") for x in a.split(";")]
+
+
+def answer_failed(x):
+    return x[0] in FAIL_RETS and not (x[0] == "null" and x[1] == "0" and x[2] == "0")
+
+
+def history_tie(ctx, runner, drv, broken):
+    rng = ctx.rng
+    n = 120 if ctx.tier == "quick" else 1200
+    hs = [gen_data_history(rng, with_init=(k % 4 == 0)) for k in range(n)]
+    mlines = ["dh %d %d %d %d %d %s" % (h.state["type"], h.state["rows"], h.state["cols"], h.state["freqs"], h.state["fz0"],
+                                        h.optext()) for h in hs]
+    rc, mout, merr = vplib.sh([drv], input="\n".join(mlines) + "\n", timeout=600)
+    mres = mout.strip().split("\n")
+    if rc != 0 or len(mres) != len(hs):
+        broken["tie:histories"] = "extracted driver failed (%d lines for %d histories): %s" % (len(mres), len(hs), merr[-300:])
+        ctx.obligation("tie:histories", False, broken["tie:histories"])
+        return
+    res = runner.run(hs)
+    diffs = []
+    erased = []
+    for h, ml in zip(hs, mres):
+        r = res.get(h.id, {})
+        if "crash" in r:
+            if not str(r["crash"].get("error", "")).startswith("not run"):
+                diffs.append((h, "library did not return: %s" % r["crash"]))
+            continue
+        m_ans, m_kept = ml.split(" kept=")
+        m_ans = [x.split("/") for x in m_ans.split(";")]
+        lib = parse_answers(r)
+        prob = None
+        if m_kept.strip() == "-1":
+            prob = "extracted kept is not the history without the refused calls"
+        elif len(lib) != len(m_ans):
+            prob = "library answered %d of %d calls" % (len(lib), len(m_ans))
+        for k, (ma, la) in enumerate(zip(m_ans, lib)):
+            if prob:
+                break
+            what = "call %d (%s): " % (k, ":".join([h.ops[k][0]] + [str(x) for x in h.ops[k][1]]))
+            if ma[0] == "pass":
+                if answer_failed(la):
+                    prob = what + "model passes, library refuses (%s %s)" % (la[0], la[1])
+            elif not answer_failed(la):
+                prob = what + "model refuses (%s %s), library accepts" % (ma[0], ma[1])
+            elif ma[:3] != la[:3]:
+                prob = what + "model %s, library %s" % ("/".join(ma[:3]), "/".join(la[:3]))
+            if prob is None and ma[3] != la[3]:
+                prob = what + "summary after the call: model %s, library %s" % (ma[3], la[3])
+        nref = sum(1 for x in m_ans if x[0] != "pass")
+        ctx.count(("dhist", h.optext(), tuple(sorted(h.state.items()))) if nref else None)
+        if prob:
+            diffs.append((h, prob))
+            continue
+        if r.get("sfx") != "ok":
+            diffs.append((h, "object not usable after the history: suffix %s" % r.get("sfx")))
+            continue
+        if nref and not any(f == "init" for f, _ in h.ops):
+            keep = [int(x) for x in m_kept.strip().split(",")] if m_kept.strip() != "-" else []
+            e = HCase("dhist", h.state, [h.ops[i] for i in keep])
+            e.full, e.keep = (h, r), keep
+            erased.append(e)
+    res2 = runner.run(erased)
+    for e in erased:
+        h, r = e.full
+        r2 = res2.get(e.id, {})
+        if "crash" in r2:
+            diffs.append((h, "the history without its refused calls did not return: %s" % r2["crash"]))
+            continue
+        full = parse_answers(r)
+        if r2.get("d") != r.get("d"):
+            diffs.append((h, "the history without its %d refused call(s) ends in a different object: digest %s, with them %s"
+                          % (len(h.ops) - len(e.keep), r2.get("d"), r.get("d"))))
+        elif parse_answers(r2) != [full[i] for i in e.keep]:
+            diffs.append((h, "the calls that were not refused answer differently once the refused calls are deleted"))
+    ctx.traces_validated += len(hs) + len(erased)
+    ctx.extra["history_tie"] = {"data_histories": len(hs), "with_refusals_rerun_without_them": len(erased)}
+    ctx.obligation("tie:histories", not diffs, "; ".join("%s: %s" % (d[0].optext()[:60], d[1]) for d in diffs[:3]))
+    seen = set()
+    for h, prob in diffs:
+        key = prob.split(":")[0][:40]
+        if key in seen:
+            continue
+        seen.add(key)
+        ctx.violation({"kind": "history", "family": "data", "problem": re.sub(r"\d+", "N", key)},
+                      "history of %d calls on a vnadata_t %s: %s" % (len(h.ops), h.state, prob),
+                      {"row": h.describe(), "problem": prob,
+                       "note": "theorems data_history_refusals_erasable / data_history_inv; model: hrun / kept over data_run"})
+
+
+def gen_new_history(rng):
+    t, r, c = rng.choice([x for x in NEW_SHAPES if x[1] == x[2]])
+    n = r
+    cnt = 5 if n > 1 else 4
+    s = {"type": t, "rows": r, "cols": c, "nstd": rng.choice([0, 0, 1, 2, cnt]), "count": cnt, "seed": rng.randint(1, 10 ** 6)}
+    ops = []
+    hs = [0, 1, 2, H_SCALAR, H_VECTOR, H_UNKNOWN, H_DELETED, 99, -1]
+    for _ in range(rng.randint(3, 9)):
+        k = rng.choice(["pv", "et", "pt", "it", "z0", "sr", "sr", "dr", "dr", "th", "solve"])
+        if k == "pv":
+            a = [rng.choice([-1000, 0, 1, 500, 1000, 1500])]
+        elif k in ("et", "pt"):
+            a = [rng.choice([-1, 0, 1, 10])]
+        elif k == "it":
+            a = [rng.choice([-1, 0, 5, 50])]
+        elif k == "z0":
+            a = [rng.choice([50, 75])]
+        elif k == "sr":
+            a = [rng.choice(hs), rng.randint(0, n + 1)]
+        elif k == "dr":
+            if n < 2:
+                continue
+            a = [rng.choice(hs), rng.choice(hs), rng.randint(0, 3), rng.randint(0, 3)]
+        elif k == "th":
+            if n < 2:
+                continue
+            a = [rng.randint(0, 3), rng.randint(0, 3)]
+        else:
+            a = []
+        ops.append((k, a))
+    return HCase("nhist", s, ops)
+
+
+def history_pairs_new(ctx, runner):
+    """C API only: a history on a vnacal_new_t and the same history without the calls refused for their arguments."""
+    rng = ctx.rng
+    n = 60 if ctx.tier == "quick" else 500
+    hs = [gen_new_history(rng) for _ in range(n)]
+    res = runner.run(hs)
+    erased = []
+    bad = []
+    for h in hs:
+        r = res.get(h.id, {})
+        if "crash" in r:
+            if not str(r["crash"].get("error", "")).startswith("not run"):
+                bad.append((h, "library did not return: %s" % r["crash"]))
+            continue
+        ans = parse_answers(r)
+        for k, x in enumerate(ans):
+            if x[0] == "m1" and not (x[1] == "EINVAL" and x[2] == "1") and not (h.ops[k][0] == "solve" and x[1] == "EDOM" and x[2] == "1") \
+                    and not (h.ops[k][0] != "solve" and x[1] == "EDOM"):
+                bad.append((h, "call %d (%s): failure value -1 with errno %s and %s report(s); documented: EINVAL for arguments, "
+                            "EDOM for a solve, one report" % (k, h.ops[k][0], x[1], x[2])))
+        keep = [k for k, x in enumerate(ans) if not (x[0] == "m1" and x[1] == "EINVAL")]
+        ctx.count(("nhist", h.optext(), tuple(sorted(h.state.items()))) if len(keep) < len(ans) else None)
+        if len(keep) < len(ans):
+            e = HCase("nhist", h.state, [h.ops[i] for i in keep])
+            e.full, e.keep = (h, r, ans), keep
+            erased.append(e)
+    res2 = runner.run(erased)
+    for e in erased:
+        h, r, ans = e.full
+        r2 = res2.get(e.id, {})
+        if "crash" in r2:
+            bad.append((h, "the history without its refused calls did not return: %s" % r2["crash"]))
+        elif r2.get("d") != r.get("d"):
+            bad.append((h, "the history without its %d refused call(s) leaves a different vnacal_new_t: bookkeeping %s, with them %s"
+                        % (len(ans) - len(e.keep), r2.get("w"), r.get("w"))))
+        elif parse_answers(r2) != [ans[i] for i in e.keep]:
+            bad.append((h, "the calls that were not refused answer differently once the refused calls are deleted"))
+        elif (r2.get("sfx"), r2.get("sd")) != (r.get("sfx"), r.get("sd")):
+            bad.append((h, "completed with the remaining standards and solved, the calibration differs from the one of the history "
+                        "without the refused calls: suffix %s digest %s, without them suffix %s digest %s"
+                        % (r.get("sfx"), r.get("sd"), r2.get("sfx"), r2.get("sd"))))
+    ctx.traces_validated += len(hs) + len(erased)
+    ctx.extra["history_pairs_vnacal_new"] = {"histories": len(hs), "with_refusals_rerun_without_them": len(erased)}
+    ctx.obligation("catalogue:history-pairs-vnacal_new", not bad, "; ".join("%s: %s" % (b[0].optext()[:60], b[1]) for b in bad[:3]))
+    seen = set()
+    for h, prob in bad:
+        key = re.sub(r"\d+", "N", prob.split(":")[0][:40])
+        if key in seen:
+            continue
+        seen.add(key)
+        ctx.violation({"kind": "history", "family": "new", "problem": key},
+                      "history of %d calls on a vnacal_new_t %s: %s" % (len(h.ops), h.state, prob),
+                      {"row": h.describe(), "problem": prob,
+                       "note": "theorems new_history_refusals_erasable / refused_standard_is_argument_refusal"})
 
 
 # ----------------------------------------------------------------------------- model tie
@@ -1270,6 +2007,15 @@ def model_tie2(ctx, runner, drv, broken):
                            ("make_correlated", [3, 0], "mc 3 3 1,2,3 1/10,1/10,1/5"), ("delete_parameter", [4], "dl 4"),
                            ("get_parameter_value", [4, 20], "gv 4 20/10")):
         pairs.append((Case("cal", sc, func + "@null", "tie", a, OK), "pp 1 " + margs, "null"))
+    # 9b. S cells that are parameter chains (model: check_chain_with / get_chain_with in the order and with the
+    #     recursion found in the C text): every calibration type 2x2 and two 1x1, with 0, some and all standards given
+    for sh in [x for x in NEW_SHAPES if x[1] == x[2]]:
+        cnt = 5 if sh[1] > 1 else 4
+        for nstd in (0, 2, cnt):
+            st = {"type": sh[0], "rows": sh[1], "cols": sh[2], "nstd": nstd, "count": cnt, "seed": 28 + nstd}
+            for cc in chain_cases_for_state(st, rng, (3 if quick else 12) if sh[1] > 1 else 2):
+                cc.cls = "tie"
+                pairs.append((cc, chain_model_line(cc), "chain"))
     # 10. vnaproperty_vset / _vset_subtree on paths of map keys (model LV.Err.RefutedModel.vset, run in the order of the
     #     C text): a NULL root, up to three accepted sets, then one call of a random class; compared: outcome and the tree
     vpairs = []
@@ -1367,6 +2113,14 @@ def model_tie2(ctx, runner, drv, broken):
                     r.get("w0", r["d0"]), r.get("w1", r["d1"]))
             elif r["ecb"] != r["errno"] and r["cb"] != "0":
                 prob = "errno inside the error function %s, on return %s" % (r["ecb"], r["errno"])
+        if prob is None and kind == "chain":
+            mw = re.match(r"m(\d+),e\d+/\d+,u(\d+),c(\d+),p(\d+)", r.get("w1", ""))
+            got = (mw.group(4), mw.group(2), mw.group(3), mw.group(1)) if mw else None
+            if r.get("ph") != (",".join(str(h) for h in c.chain["handles"]) or "-"):
+                prob = "handles of the parameters the script created: expected %s, library %s" % (c.chain["handles"], r.get("ph"))
+            elif got != tuple(m[3:7]):
+                prob = "bookkeeping after the call (registered parameters, unknowns, correlated, measurements): model %s, library %s" % (
+                    tuple(m[3:7]), got)
         if prob is None and kind == "vset":
             mtree = re.sub(r"(\d+):", r"k\1:", m[3])
             if r.get("tree") != mtree:
